@@ -474,7 +474,9 @@ def run(ctx):
         rule="a case is one step map (all positions x both association sides x both orientations, for_each, touches, recover) "
              "or one random mapping (composition, slices, appends, inversion, mirrored palindromes); distinct by content; "
              "non-trivial = at least one range",
-        extra={"exhaustive": False})
+        # `exhaustive` stays false: the run also samples an unbounded space (random larger maps and mappings); the small
+        # scope named in the notes is enumerated completely in the thorough tier
+        extra={"exhaustive": False, "small_scope_enumerated_completely": exhaustive, "small_scope_maps": len(pool) * 2})
 
 
 if __name__ == "__main__":
